@@ -23,5 +23,6 @@ int main(void) {
     printf("asm_err_undefined_label %d\n", ASM_ERR_UNDEFINED_LABEL);
     printf("asm_err_duplicate_label %d\n", ASM_ERR_DUPLICATE_LABEL);
     printf("asm_err_no_function %d\n", ASM_ERR_NO_FUNCTION);
+    printf("asm_err_memory %d\n", ASM_ERR_MEMORY);
     return 0;
 }
